@@ -15,6 +15,7 @@ enum { RW_RAW = 0, RW_GZIP = 1, RW_ZLIB = 2 };
 struct ri_block {
 	int type, bfinal;
 	size_t bit_start, bit_end;   /* bit offsets in the input */
+	size_t hdr_end_bit;          /* dynamic blocks: first bit after the code-length section */
 	size_t out_start, out_end;
 	uint32_t max_dist;           /* largest match distance used in this block */
 	uint32_t nlit, nmatch;
